@@ -462,6 +462,8 @@ func (x *TextLiteral) String() string {
 // NumberLiteral is a literal number like 123 or 1.5
 type NumberLiteral struct {
 	Value *types.XNumber
+
+	text string // as originally written, e.g. 2.50, because results of some operations depend on the scale of their operands
 }
 
 func (x *NumberLiteral) Evaluate(env envs.Environment, scope *Scope, warnings *Warnings) types.XValue {
@@ -473,6 +475,9 @@ func (x *NumberLiteral) Visit(v func(Expression)) {
 }
 
 func (x *NumberLiteral) String() string {
+	if x.text != "" {
+		return x.text
+	}
 	return x.Value.Describe()
 }
 
